@@ -1124,6 +1124,15 @@ def arange(start, stop=None, step=1, dtype=None):
         lnp = cx.prune(ln) if cx is not None else simp(ln)
         return SArr(dtf, (dim(lnp),), lambda idx: to_real(st) + z3.ToReal(idx[0]))
     stepc = conc(step)
+    if stepc is None and z3.is_int(term(step)):
+        # symbolic positive integer step: the length L is characterised by (L-1)*step < stop-start <= L*step (ceil division; non linear),
+        # elements start + i*step; a step <= 0 is refused by an obligation (not modelled)
+        stt = term(step)
+        oblige("arange.positive_step", stt >= 1, "arange with a symbolic step: only positive steps are modelled")
+        L = z3.Int(fresh_name("arange_len"))
+        note_fact(L >= 0, z3.Implies(sp <= st, L == 0), z3.Implies(sp > st, z3.And(L >= 1, (L - 1) * stt < sp - st, sp - st <= L * stt)))
+        dt = np.dtype(dtype) if dtype is not None else np.dtype("int64")
+        return SArr(dt, (dim(L),), lambda idx: cast_term("int64", dt, st + idx[0] * stt))
     if stepc is None or stepc == 0:
         raise Unsupported("symbolic arange step")
     if stepc > 0:
